@@ -45,8 +45,11 @@ TSIStep(p, st, x) ==
 
 \* Vidya(n): changes window (seeded 0), up = sum of positive changes, dn = sum of |negative changes|;
 \* y <- x when up = dn = 0, else y + f*c*(x - y) with f = 2/(n+1), c = |up - dn| / (up + dn)
-VidyaInit(n, v) == [win |-> [i \in 1..n |-> FxZero], lastin |-> v, y |-> v]
-VidyaStep(n, st, x) ==
+VidyaInit(n, v) == [win |-> [i \in 1..n |-> FxZero], lastin |-> v, y |-> v, eacc |-> FxZero]
+\* aq: allowance of the windowed sums up + dn (they are running accumulators in the code).  The factor c is a
+\* quotient of those sums, so its error is amplified by 1 / (up + dn); that contribution to y is accumulated
+\* in eacc (DESIGN.md section 4, quotient rule) and added to the tolerance by NumSubjects.
+VidyaStep(n, st, x, aq) ==
     LET ch  == FxSub(x, st.lastin)
         win == Append(Tail(st.win), ch)
         up  == FxSum([i \in 1..n |-> IF win[i].s > 0 THEN win[i] ELSE FxZero])
@@ -56,7 +59,11 @@ VidyaStep(n, st, x) ==
                ELSE LET c  == FxDiv(FxAbs(FxSub(up, dn)), tot)
                         fc == FxDivInt(FxMulInt(c, 2), n + 1)
                     IN  FxAdd(st.y, FxMul(fc, FxSub(x, st.y)))
-    IN  [st |-> [win |-> win, lastin |-> x, y |-> y], out |-> y, tot |-> tot]
+        \* f * |x - y_prev| * (2 aq / (tot - aq)), when the quotient is well conditioned
+        extra == IF FxIsZero(tot) THEN FxNeg(st.eacc)                 \* y = x exactly: the past is forgotten
+                 ELSE IF FxLe(tot, FxMulInt(aq, 8)) THEN FxZero
+                 ELSE FxDivInt(FxMulInt(FxMul(FxAbs(FxSub(x, st.y)), FxDiv(FxMulInt(aq, 2), FxSub(tot, aq))), 2), n + 1)
+    IN  [st |-> [win |-> win, lastin |-> x, y |-> y, eacc |-> FxAdd(st.eacc, extra)], out |-> y, tot |-> tot]
 
 \* TR: true range against the previous close
 TRInit(c) == c.c
